@@ -85,8 +85,12 @@ Proof.
   inversion ND as [|? ? Hn ND']; subst. inversion Hu as [|? ? Hu1 Hu2]; subst. cbn [flat_map].
   assert (N1 : NoDup ((if h (tb_name tb) then [] else [tb_name tb]) ++
                       (if h (meta_columns_of (tb_name tb)) then [] else [meta_columns_of (tb_name tb)]))).
-  { destruct (h (tb_name tb)), (h (meta_columns_of (tb_name tb))); cbn; repeat constructor; cbn; try tauto.
-    intros [E|[]]. rewrite <- E in Hu1. rewrite meta_columns_of_meta in Hu1. discriminate. }
+  { destruct (h (tb_name tb)); destruct (h (meta_columns_of (tb_name tb))); cbn [app].
+    - constructor.
+    - constructor; [intros []|constructor].
+    - constructor; [intros []|constructor].
+    - constructor; [|constructor; [intros []|constructor]].
+      intros [E|[]]. rewrite <- E in Hu1. rewrite meta_columns_of_meta in Hu1. discriminate. }
   assert (D : forall x, In x ((if h (tb_name tb) then [] else [tb_name tb]) ++
                               (if h (meta_columns_of (tb_name tb)) then [] else [meta_columns_of (tb_name tb)])) ->
                         In x (created_of h b) -> False).
@@ -106,6 +110,21 @@ Proof.
   intros l N1 D. induction l as [|x l IHl]; cbn [app]; auto. inversion N1; subst. constructor.
   - intro HI. apply in_app_or in HI. destruct HI as [HI|HI]; [contradiction|]. apply (D x); [left; reflexivity|exact HI].
   - apply IHl; auto. intros y Hy. apply D. right. exact Hy.
+Qed.
+
+(* a written buffer splits in exactly one way into client entries and catalogue entries *)
+Lemma split_unique : forall (b1 extra1 b extra : batch),
+  b1 ++ extra1 = b ++ extra ->
+  Forall (fun tb => user_table (tb_name tb) = true) b1 -> Forall (fun tb => user_table (tb_name tb) = true) b ->
+  meta_named extra1 -> meta_named extra -> b1 = b /\ extra1 = extra.
+Proof.
+  induction b1 as [|x b1 IH]; intros extra1 b extra E U1 U M1 M.
+  - destruct b as [|y b]; [cbn in E; auto|]. cbn in E. subst extra1. exfalso.
+    inversion U; subst. unfold meta_named in M1. inversion M1; subst. congruence.
+  - destruct b as [|y b].
+    + cbn in E. subst extra. exfalso. inversion U1; subst. unfold meta_named in M. inversion M; subst. congruence.
+    + cbn in E. injection E as -> E. inversion U1; subst. inversion U; subst.
+      destruct (IH _ _ _ E H2 H4 M1 M) as [-> ->]. auto.
 Qed.
 
 (* the tables with rows in the log, other than _meta_tables itself, are the ones listed - once *)
@@ -139,15 +158,8 @@ Proof.
           (* no catalogue rows before: every column of the entry is new, so rows are appended *)
           destruct S1 as [b1 [extra1 [Ef1 [W1 [M1 [_ Hs1]]]]]].
           assert (Eb : b1 = b /\ extra1 = extra).
-          { (* both decompositions split full at the first non-client entry *)
-            rewrite Ef in Ef1. clear - Ef1 W W1 M M1.
-            pose proof (wb_user _ W) as U. pose proof (wb_user _ W1) as U1. revert b1 U1 Ef1.
-            induction b as [|x b IHb]; intros b1 U1 E.
-            - destruct b1 as [|y b1]; [cbn in E; auto|]. cbn in E. subst extra. exfalso.
-              inversion U1; subst. unfold meta_named in M. inversion M; subst. congruence.
-            - inversion U; subst. destruct b1 as [|y b1].
-              + cbn in E. subst extra1. exfalso. unfold meta_named in M1. inversion M1; subst. congruence.
-              + cbn in E. injection E as <- E. inversion U1; subst. destruct (IHb H2 b1 H4 E) as [-> ->]. auto. }
+          { rewrite Ef in Ef1. symmetry in Ef1.
+            apply (split_unique _ _ _ _ Ef1 (wb_user _ W1) (wb_user _ W) M1 M). }
           destruct Eb as [-> ->]. destruct (Hs1 _ Hu) as [_ En].
           assert (Ef' : find_tb (tb_name tb) b = Some tb).
           { pose proof (wb_names _ W) as NDb. clear - NDb HI. unfold find_tb.
@@ -159,15 +171,17 @@ Proof.
           rewrite Ef' in En.
           assert (Eln : log_names log (tb_name tb) = []).
           { unfold log_names. unfold log_has in Hh. destruct (acked_rows log (meta_columns_of (tb_name tb))); [reflexivity|discriminate]. }
-          rewrite Eln in En. unfold new_names in En. cbn in En. rewrite filter_all in En; [|auto].
+          assert (Enew : new_names [] (tb_cols tb) = tb_cols tb).
+          { unfold new_names. apply filter_all. intros; reflexivity. }
+          rewrite Eln, Enew in En.
           pose proof (wb_nonempty _ W) as Hne. rewrite Forall_forall in Hne. destruct (Hne _ HI) as [Hcols _].
-          rewrite <- Ef. intro E0. rewrite E0 in En. cbn in En. symmetry in En. contradiction.
+          intro E0. rewrite E0 in En. unfold names_of in En. cbn [flat_map] in En. symmetry in En. contradiction.
       - intros [Hnm [Hh Hr]]. rewrite Ef, batch_rows_app in Hr.
         destruct (user_table n) eqn:Hu.
         + (* a client table: its rows come from its entry *)
           rewrite (meta_named_rows _ _ M Hu), app_nil_r, (batch_rows_find _ _ (wb_names _ W)) in Hr.
           destruct (find_tb n b) as [tb|] eqn:Ef'; [|contradiction].
-          destruct (find_tb_in _ _ _ Ef') as [HI Hn]. exists tb. split; auto. left. auto.
+          destruct (find_tb_in _ _ _ Ef') as [HI Hn]. exists tb. split; [exact HI|]. left. split; [congruence|exact Hh].
         + (* a catalogue table of an entry *)
           pose proof (wb_user _ W) as Ub. rewrite (user_rows_nil _ _ Ub Hu) in Hr. cbn [app] in Hr.
           assert (Hent : exists tbx, In tbx extra /\ tb_name tbx = n).
